@@ -2,7 +2,7 @@
     Common/Utf8.v and followed by [Print Assumptions]; statements are pinned again in Pins.v.
     Hash functions: NO theorem (no Coq model of MD5/SHA-1/SHA-2/SHA-3); exploration level. *)
 From Coq Require Import List NArith ZArith Bool.
-From JrV Require Import Common.Utf8 C11.Model C11.ProofsFind C11.ProofsStr C11.ProofsNum C11.ProofsB64.
+From JrV Require Import Common.Utf8 C11.Model C11.ProofsFind C11.ProofsStr C11.ProofsNum C11.ProofsB64 C11.ProofsSplit.
 Import ListNotations.
 
 (** decoding the UTF-8 encoding of any list of Unicode scalar values gives it back *)
@@ -36,14 +36,13 @@ Theorem C11_utf8_injective :
 Proof. exact encode_inj. Qed.
 Print Assumptions C11_utf8_injective.
 
-(** self-synchronisation, byte classes only: the first byte of every encoded character is not a
-    continuation byte and all others are.  FULL statement (not proved): if [encode p] occurs in
-    [encode s] at byte offset k then k is a character boundary of s. *)
-Theorem C11_utf8_selfsync_partial :
+(** self-synchronisation, byte classes (the full statement is C11_utf8_selfsync): the first byte of every encoded character is not a
+    continuation byte and all others are. *)
+Theorem C11_utf8_byte_classes :
   forall c, (c <= 1114111)%N ->
     exists h t, enc1 c = h :: t /\ is_cont h = false /\ forallb is_cont t = true.
 Proof. exact enc1_shape. Qed.
-Print Assumptions C11_utf8_selfsync_partial.
+Print Assumptions C11_utf8_byte_classes.
 
 (** findSubstr's walk over char_indices() with a byte-length bound and byte-slice comparison returns
     exactly the code-point indices of the documented definition, for ALL strings *)
@@ -79,26 +78,24 @@ Proof. exact substr_refines. Qed.
 Print Assumptions C11_substr_spec.
 
 (** laws of the split definition for every limit: joining the pieces with the separator gives the
-    string back, at most n+1 pieces.  FULL statement (not proved): [bsplit s sep lim = map encode
-    (gsplit sep lim s)], i.e. the byte-level search of splitn equals the code-point definition
-    (needs full self-synchronisation); tied by correspondence only. *)
-Theorem C11_split_spec_partial :
+    string back, at most n+1 pieces.  The byte-level refinement is C11_split_refines. *)
+Theorem C11_split_spec :
   forall s sep lim, sep <> [] ->
     exists ps, split_spec s sep lim = Some ps /\ join sep ps = s /\ ps <> [] /\
                (forall n, lim = Some n -> length ps <= S n).
 Proof. exact split_laws. Qed.
-Print Assumptions C11_split_spec_partial.
+Print Assumptions C11_split_spec.
 
 Theorem C11_strReplace_identity :
   forall s from, from <> [] -> replace_spec s from from = Some s.
 Proof. exact replace_id. Qed.
 Print Assumptions C11_strReplace_identity.
 
-(** outside the known class: a digit string whose value is below 2^53 is parsed to exactly that
+(** a digit string whose value is below 2^53 is parsed to exactly that
     integer by the classifier + one-rounding-per-step accumulation *)
 Theorem C11_parse_nat_exact :
   forall base s v, (base = 8 \/ base = 10 \/ base = 16)%N ->
-    known_hex_punct base s = false -> nat_spec base s = Some v -> (v < 2 ^ 53)%N ->
+    nat_spec base s = Some v -> (v < 2 ^ 53)%N ->
     nat_impl base s = PFin v.
 Proof. exact nat_impl_exact. Qed.
 Print Assumptions C11_parse_nat_exact.
@@ -106,15 +103,9 @@ Print Assumptions C11_parse_nat_exact.
 (** ... and every string with a non-digit (or empty) is rejected *)
 Theorem C11_parse_nat_rejects :
   forall base s, (base = 8 \/ base = 10 \/ base = 16)%N ->
-    known_hex_punct base s = false -> nat_spec base s = None -> nat_impl base s = PBad.
+    nat_spec base s = None -> nat_impl base s = PBad.
 Proof. exact nat_impl_bad. Qed.
 Print Assumptions C11_parse_nat_rejects.
-
-(** FINDING: in base 16 the classifier accepts ':' ';' '<' '=' '>' '?' as digits 10..15 *)
-Theorem C11_parse_hex_refuted :
-  exists s, known_hex_punct 16 s = true /\ nat_spec 16 s = None /\ nat_impl 16 s = PFin 10.
-Proof. exact parse_hex_refuted. Qed.
-Print Assumptions C11_parse_hex_refuted.
 
 (** the SPEC classifier accepts exactly [0-7] / [0-9] / [0-9a-fA-F] *)
 Theorem C11_digit_alphabet :
@@ -170,4 +161,42 @@ Theorem C11_base64_string_roundtrip :
     spec_call (CB64Dec (b64_encode (encode s))) = RStr s.
 Proof. exact b64_call_roundtrip. Qed.
 Print Assumptions C11_base64_string_roundtrip.
+
+(** FULL self-synchronisation: wherever the encoding of a non-empty string occurs inside the encoding
+    of another, it starts at a character boundary and is an occurrence of the code points *)
+Theorem C11_utf8_selfsync :
+  forall s p x y,
+    forallb scalar s = true -> forallb scalar p = true -> p <> [] ->
+    encode s = x ++ encode p ++ y ->
+    exists a b, s = a ++ p ++ b /\ x = encode a /\ y = encode b.
+Proof. exact selfsync. Qed.
+Print Assumptions C11_utf8_selfsync.
+
+(** the leftmost non-overlapping search on the UTF-8 BYTES (str::split / splitn(n+1)) yields exactly
+    the encodings of the pieces of the code-point definition, for every limit *)
+Theorem C11_split_refines :
+  forall s sep lim, sep <> [] ->
+    forallb scalar s = true -> forallb scalar sep = true ->
+    bsplit s sep lim = map encode (gsplit sep lim s).
+Proof. exact bsplit_refines. Qed.
+Print Assumptions C11_split_refines.
+
+(** str::ends_with on the bytes = the substr-based definition on code points *)
+Theorem C11_endsWith_refines :
+  forall a b, forallb scalar a = true -> forallb scalar b = true ->
+    ends_impl a b = ends_spec a b.
+Proof. exact ends_refines. Qed.
+Print Assumptions C11_endsWith_refines.
+
+(** trim_end_matches (scan from the end) = the recursive rstripChars definition *)
+Theorem C11_rstrip_refines :
+  forall chars s, rstrip_impl s chars = rstrip_spec s chars.
+Proof. exact rstrip_refines. Qed.
+Print Assumptions C11_rstrip_refines.
+
+(** trim_matches (start, then end) = lstripChars(rstripChars(s)) *)
+Theorem C11_strip_spec :
+  forall chars s, strip_impl s chars = strip_spec s chars.
+Proof. exact strip_refines. Qed.
+Print Assumptions C11_strip_spec.
 
